@@ -5,6 +5,7 @@
 # Labs let seeded changes be tried concurrently and while background runs use /repo.
 set -u
 N="$1"; D=/tmp/lab/$N; CMD="${2:-make}"
+VSRC="${LAB_VERIF_SRC:-/verif}"   # where the lab copies the machinery from (a frozen snapshot during sweeps)
 case "$CMD" in
 make)
   mkdir -p "$D"
@@ -12,13 +13,13 @@ make)
   git -C /repo worktree prune
   git -C /repo worktree add --detach "$D/repo" HEAD >/dev/null 2>&1
   EX=""; [ -d "$D/verif/harness/target" ] && EX="--exclude harness/target"   # keep the lab's own cargo cache once it exists
-  rsync -a --delete $EX --exclude tmp --exclude .git --exclude replays /verif/ "$D/verif/"
+  rsync -a --delete $EX --exclude tmp --exclude .git --exclude replays "$VSRC/" "$D/verif/"
   sed -i "s#path = \"/repo\"#path = \"$D/repo\"#" "$D/verif/harness/Cargo.toml"
   mkdir -p "$D/verif/tmp"
   echo "$D" ;;
 sync)
-  git -C "$D/repo" checkout -q -- . ; git -C "$D/repo" checkout -q --detach "$(git -C /repo rev-parse HEAD)"
-  rsync -a --delete --exclude harness/target --exclude tmp --exclude .git --exclude replays /verif/ "$D/verif/"
+  git -C "$D/repo" checkout -q -- . ; git -C "$D/repo" checkout -q --detach "${LAB_REPO_REV:-$(git -C /repo rev-parse HEAD)}"
+  rsync -a --delete --exclude harness/target --exclude tmp --exclude .git --exclude replays "$VSRC/" "$D/verif/"
   sed -i "s#path = \"/repo\"#path = \"$D/repo\"#" "$D/verif/harness/Cargo.toml" ;;
 try)
   P="$3"; ID="$4"; TIER="${5:-quick}"
